@@ -164,8 +164,27 @@ theorem site_vsharp3d_engine_harddc_sem (x : V) (y : W) :
     evalPlan ox [.v x, .w y] site_vsharp3d_engine_harddc = some [.w (hardDC ox x y)] := by
   site_simp site_vsharp3d_engine_harddc, hardDCPadPlan
 
+/-- `ConjGradNet.init_z` (SENSE branch): `z₀ = R Fb y` -/
+theorem site_conjgradnet_init_sem (y : W) :
+    evalPlan ox [.w y] site_conjgradnet_init = some [.v (sense o y)] := by site_simp site_conjgradnet_init, sensePlan
+
 theorem rim_llg_call_args : rim_llg_call_args_ok = true := by decide
 theorem cirim_llg_call_args : cirim_llg_call_args_ok = true := by decide
 
 end Semantics
+
+/-! ### phase 3: the caller of `ConjGrad`, and state that outlives a call -/
+
+/-- every `self.conj_grad(…)` call of `ConjGradNet.forward` is `(masked_kspace, sensitivity_map, sampling_mask, z, self.mu)`:
+`ConjGrad.forward(masked_kspace, S, mask, z, lambd)` then runs `cg(z, masked_kspace, S, mask, lambd, z)` (`forward_call_args_eq`) -/
+theorem conjgradnet_cg_calls_ok : conjGradNetCallsOk conjgradnet_cg_calls = true := by decide
+/-- `ConjGradNet.__init__` hands `cg_iters, cg_tol, cg_param_update_type` to `num_iters, tol, bk_update_type` -/
+theorem conjgradnet_ctor_args_eq :
+    conjgrad_ctor_params = conjGradCtorParams ∧ conjgradnet_ctor_args = conjGradNetCtorArgs := by decide
+
+/-- **no call of a data-consistency block writes state that outlives it** (attributes of `self`, class attributes, module
+globals / containers, mutable defaults, memoising decorators), in any function reachable from the entry points of the 25
+classes of the site table, and every entry point was scanned -/
+theorem dc_state_writes_ok : stateWritesOk dc_state_writes dc_state_reach = true := by decide
+
 end DirectVerif.Bridge.C19
